@@ -1,9 +1,9 @@
 package engine
 
 import (
+	"fmt"
 	"go/token"
 	"go/types"
-	"fmt"
 	"os"
 	"strings"
 
